@@ -420,5 +420,36 @@ func Check(c Case) *kit.Violation {
 			return kit.Failf("PARSE Accept=%q: range %d parsed as %+v, want {%s %v}", lines, i, specs[i], r.Value(), wq)
 		}
 	}
+	// what ParseAccept returned is the caller's: a caller that sorts it or strikes ranges out changes no later answer (r7)
+	if v := scribbleSpecs("Accept", lines, specs); v != nil {
+		return v
+	}
+	if again, v := negotiateType(lines, c.Offers, c.Default); v != nil {
+		return v
+	} else if again != want {
+		return kit.Failf("SELECTION-AFTER-SCRIBBLE Accept=%q offers=%q default=%q: after a caller changed the slice ParseAccept had returned for this header, the selection is %q, want %q", lines, c.Offers, c.Default, again, want)
+	}
+	return nil
+}
+
+// scribbleSpecs overwrites the slice a ParseAccept call returned and demands that a second parse of the same header
+// still yields what the first one did.
+func scribbleSpecs(key string, lines []string, specs []header.AcceptSpec) *kit.Violation {
+	first := append([]header.AcceptSpec(nil), specs...)
+	for i := range specs {
+		specs[i].Value, specs[i].Q = "scribbled/by-a-caller", 0
+	}
+	second, v := parseAccept(key, lines)
+	if v != nil {
+		return v
+	}
+	if len(second) != len(first) {
+		return kit.Failf("PARSE-AFTER-SCRIBBLE %s=%q: a second parse returns %d ranges, the first returned %d", key, lines, len(second), len(first))
+	}
+	for i := range first {
+		if second[i] != first[i] {
+			return kit.Failf("PARSE-AFTER-SCRIBBLE %s=%q: after a caller changed the slice the first ParseAccept had returned, a second parse of the same header yields %+v at %d, the first yielded %+v", key, lines, second[i], i, first[i])
+		}
+	}
 	return nil
 }
